@@ -40,7 +40,8 @@ func init() {
 		Check:      check,
 		NonTrivial: nonTrivial,
 		Rule: "dp cases: ≥ 3 items and at least one knap/solv op that did not panic; map cases: ≥ 2 keys and one query; " +
-			"graph cases: ≥ 3 vertices, ≥ 1 edge and one query; distinct by hash of the case lines",
+			"graph cases: ≥ 3 vertices, ≥ 1 edge and one query; distinct by hash of the case lines; " +
+			"stream 'large' = 17..200 items / 33..120 vertices, judged by non-brute-force independent oracles (own DP table, reachable-total table, own pivoting Bron–Kerbosch + per-clique maximality)",
 		Classify: classify,
 		Shrink:   shrink,
 		Parallel: true,
